@@ -139,6 +139,18 @@ func desc(p []event) []string {
 
 // runPath replays a path in a fresh bubble against the real queue.
 func runPath(t *testing.T, cfg config, path []event) (res result) {
+	// a bubble that cannot end because goroutines stay blocked (the loop stuck answering a waiter
+	// twice, a caller never answered) makes synctest panic in this goroutine: that IS a wedge
+	defer func() {
+		if p := recover(); p != nil {
+			msg := fmt.Sprint(p)
+			if !strings.Contains(msg, "blocked goroutines remain") && !strings.Contains(msg, "deadlock") {
+				panic(p)
+			}
+			res.wedged = true
+			res.viols = append(res.viols, [2]string{"loop-wedged/bubble-cannot-end", "at the end of the path goroutines of the queue or its callers stay blocked for ever: " + msg})
+		}
+	}()
 	synctest.Test(t, func(t *testing.T) {
 		q := storage.NewNotificationQueue()
 		var mu sync.Mutex
@@ -183,12 +195,23 @@ func runPath(t *testing.T, cfg config, path []event) (res result) {
 		}
 		queued := func() map[int]bool { // waiter ids currently in some heap
 			out := map[int]bool{}
-			for _, items := range q.VerifDump() {
+			for tbl, items := range q.VerifDump() {
+				if tbl == "probe-table" {
+					continue // the harness's own Add probes (cancelled right away, swept later)
+				}
 				for _, it := range items {
+					known := false
 					for i, w := range ws {
 						if w.added && (<-chan error)(it.Ch) == w.ch {
 							out[i] = true
+							known = true
+							if w.def.Table != tbl {
+								viol("queue-corrupted/waiter-queued-under-another-table", fmt.Sprintf("waiter %d of table %s sits in the heap of table %s", i, w.def.Table, tbl))
+							}
 						}
+					}
+					if !known {
+						viol("queue-corrupted/heap-entry-that-is-no-waiter", fmt.Sprintf("table %s holds an entry (revision %d, channel %v) that belongs to no added waiter", tbl, it.Revision, it.Ch != nil))
 					}
 				}
 			}
